@@ -50,6 +50,7 @@ fn op_text(op: &str, args: &[String]) -> String {
         "map-id" => format!("(map (lambda (e) e) {})", a(0)),
         "for-each-collect" => format!("(let ((acc '())) (for-each (lambda (e) (set! acc (cons e acc))) {}) acc)", a(0)),
         "map-cons" => format!("(map cons {} {})", a(0), a(1)),
+        "for-each-cons" => format!("(let ((acc '())) (for-each (lambda (a b) (set! acc (cons (cons a b) acc))) {} {}) acc)", a(0), a(1)),
         "vector-copy0" => format!("(vector-copy {})", a(0)),
         "string-copy0" => format!("(string-copy {})", a(0)),
         _ => format!("({} {})", op, args.join(" ")).replace(" )", ")"),
@@ -269,7 +270,19 @@ fn replay_one(b: &Value, npool: usize, stats: &mut Stats) -> Vec<Value> {
         done_texts.push(text.clone());
         stats.ops += 1;
         *stats.by_op.entry(op.to_string()).or_insert(0) += 1;
-        let r = eval(&mut s, &format!("(define zz-result {})", text));
+        // the operation sits in operand position behind a marker: a procedure that pops too few or too many of its
+        // arguments shifts the operands of the enclosing application
+        let mut r = eval(&mut s, &format!("(define zz-wrapped (cons 'zz-mark {}))", text));
+        if let Outcome::Ok(_) = r {
+            let mark_ok = matches!(eval(&mut s, "(car zz-wrapped)"), Outcome::Ok(marwood::cell::Cell::Symbol(ref m)) if m == "zz-mark");
+            if !mark_ok {
+                out.push(json!({"step": i + 1, "op": op, "text": text, "what": "the operation shifted the operands of the enclosing application (it did not pop exactly its arguments)",
+                                "exp": o["exp"], "got": null, "history": done_texts}));
+                stats.mismatches += 1;
+                return out;
+            }
+            r = eval(&mut s, "(define zz-result (cdr zz-wrapped))");
+        }
         let exp = &o["exp"];
         let er = exp["r"].as_str().unwrap_or("");
         *stats.outcomes.entry(er.to_string()).or_insert(0) += 1;
@@ -306,6 +319,9 @@ fn replay_one(b: &Value, npool: usize, stats: &mut Stats) -> Vec<Value> {
             if bad.is_none() {
                 bad = Some(("implementation died".into(), json!(null)));
             }
+        } else if bad.is_none() && s.vm.verif_stack().get_sp() != 0 {
+            // a procedure implemented in Rust pops exactly its arguments: between evaluations the stack is empty
+            bad = Some(("the evaluation leaves values on the stack".into(), json!(s.vm.verif_stack().get_sp())));
         }
         if let Some((what, got)) = bad {
             out.push(json!({"step": i + 1, "op": op, "text": text, "what": what, "exp": exp, "got": got, "history": done_texts}));
